@@ -4,6 +4,7 @@ import (
 	"fmt"
 	"go/token"
 	"go/types"
+	"os"
 	"sort"
 	"strconv"
 	"strings"
@@ -140,6 +141,7 @@ func ruleEligibility(w *World, r *Report) {
 	}
 	names := map[rel]string{relLT: "<", relEQ: "==", relGT: ">"}
 	bad := ""
+	var open []string
 	for _, r1 := range []rel{relLT, relEQ, relGT} {
 		for _, r2 := range []rel{relLT, relEQ, relGT} {
 			orc := oracleFor([]pairRel{{hzCall, H, r1}, {vzCall, V, r2}})
@@ -156,6 +158,25 @@ func ruleEligibility(w *World, r *Report) {
 				}
 			}
 			combo := fmt.Sprintf("hZoom %s target, vZoom %s target", names[r1], names[r2])
+			if os.Getenv("SID_DEBUG_ELIG") != "" {
+				for _, blk := range f.Blocks {
+					if _, _, ifi := ifSuccs(blk); ifi != nil && blocks[blk] {
+						o, k := orc(ifi.Cond)
+						fmt.Fprintln(os.Stderr, "   if", blk.Index, shortInstr(ifi), "cond", describeValue(ifi.Cond), "->", o, k)
+					}
+				}
+				fmt.Fprintln(os.Stderr, "ELIG", combo, "hz", hzCall.Name(), "vz", vzCall.Name(), "cand", candReach, "pass", passReach)
+				for b := range reach {
+					fmt.Fprint(os.Stderr, " ", b.Index)
+				}
+				fmt.Fprintln(os.Stderr)
+			}
+			if candReach && passReach {
+				// the branch between the two appends was not decided by the ordering: the test is
+				// in a form the enumeration does not read (a helper, a method of a value type)
+				open = append(open, combo)
+				continue
+			}
 			switch {
 			case eligible && passReach:
 				bad = combo + ": the ID can be passed through unmerged although it is not coarser than the target on any axis"
@@ -176,6 +197,8 @@ func ruleEligibility(w *World, r *Report) {
 	}
 	if bad != "" {
 		r.add("ELIGIBILITY", fn+" / split", pos, Violated, bad)
+	} else if len(open) > 0 {
+		r.add("ELIGIBILITY", fn+" / split", pos, Undecided, fmt.Sprintf("the split between merge candidates and pass-through IDs is decided by a test the enumeration does not read (%d of 9 orderings undecided)", len(open)))
 	} else {
 		r.add("ELIGIBILITY", fn+" / split", pos, Discharged, "all 9 orderings classify the ID as documented (candidate iff hZoom >= target && vZoom >= target)")
 	}
